@@ -284,7 +284,7 @@ static void walkCase(Rng &rng, CaseResult &r) {
   if (r.needSample()) r.sample = vf::J::obj().kv("family", famStr(f)).kraw("x", vf::jarr(x)).kraw("y", vf::jarr(y)).str();
   if (r.dumpOnly || n == 0) return;
   DetailedPlacement pl = DetailedPlacement::fromPos(rows, f.widths, x, y);
-  int steps = (int)rng.range(5, 40), done = 0;
+  int steps = rng.chance(0.05) ? (int)rng.range(41, 400) : (int)rng.range(5, 40), done = 0;
   std::string trace;
   for (int s = 0; s < steps; ++s) {
     bool did = false;
